@@ -2049,6 +2049,11 @@ def check_messages(rep, g):
             bv = const_value(chk['bound'])
             bound_named = re.search(r'(?<![\w.])' + re.escape(repr(bv).rstrip('0').rstrip('.') if isinstance(bv, float) else str(bv)), text) is not None
         rep.ob('R-MSG', bound_named, g, f'{what}: names the declared bound', {'text': text, 'args': [show(a[1]) for a in args], 'bound': show(chk['bound'])})
+        # ... and that bound is the one the declaration states (what the spelling written by the user denotes), not merely
+        # the one the validator happens to enforce
+        bm = bound_matches(ex, chk, v, d)
+        rep.ob('R-MSG', bm, g, f'{what}: the bound it names is `{v.get("text")}` = {v.get("value", v.get("text"))!r} as declared',
+               {'text': text, 'bound': show(chk['bound']), 'declared': repr(v.get('value'))})
         want_measure = 'charcount' if k.startswith('len_char') else 'value'
         if chk['measure'] != want_measure:
             rep.ob('R-MSG', False, g, f'{what}: the validator tests `{chk["measure"]}`, the message states a constraint on the '
